@@ -50,6 +50,9 @@ class ProbeRecorder(RF.AbstractRecorder):
         self.xf += a
         self.xt += b
 
+    def __len__(self):
+        return len(self.vf)         # the number of loops recorded so far (0 while the recorder is new)
+
     values_from = property(lambda self: self.vf)
     values_to = property(lambda self: self.vt)
     index_from = property(lambda self: self.xf)
@@ -568,7 +571,11 @@ def _execute(prop, trace):
         elif cont == "mixed":
             # every block in the narrowest float it fits in (float32 where exact, float64 otherwise)
             with np.errstate(over="ignore", under="ignore"):
-                if np.array_equal(chunk.astype(np.float32).astype(np.float64), chunk):
+                if len(chunk) and np.array_equal(np.round(chunk), chunk) and float(np.abs(chunk).max()) < 2.0 ** 31 \
+                        and not (np.signbit(chunk) & (chunk == 0)).any():
+                    chunk = chunk.astype(np.int32 if (st["k"] + r) % 2 else np.int64)       # whole numbers: a counter channel
+                    cont = "mixed:int"
+                elif np.array_equal(chunk.astype(np.float32).astype(np.float64), chunk):
                     chunk = chunk.astype(np.float32)
                     cont = "mixed:float32"
                 else:
